@@ -12,7 +12,7 @@ from sim.world import HarnessError, StepCap, Quiescent
 
 PROP = "C07"
 LEVEL = "exploration"
-COUNTS = {"quick": 30000, "thorough": 1200000}
+COUNTS = {"quick": 60000, "thorough": 3000000}
 MAX_SECONDS = {"quick": 100, "thorough": 1500}
 DET_EVERY = {"quick": 40, "thorough": 400}
 SHRINK_BUDGET = 600
